@@ -31,6 +31,7 @@ var knownCases = []struct {
 	// (the dedup counter is created and filled by user operations only)
 	{"N6-dedup-wire-restore", "server", SCase{
 		Lit:   Node{K: "obj", Keys: []string{"k"}, Kids: []Node{{K: "null"}}},
+		Sharp: true,
 		Steps: []HStep{{Op: "xcnt", A: 1}, {Op: "xcinc", A: 1, C: 0}},
 		After: Node{K: "obj", Keys: []string{"x"}, Kids: []Node{{K: "null"}}},
 	}},
